@@ -880,7 +880,7 @@ func genTimed(o *hlib.Out, in caseIn, r0 *hlib.Rng) {
 			}
 		}
 		for k := 0; k < rounds; k++ {
-			T := hlib.Pick(r, []int64{1, 1, 2, 2, 0, -1, 9223372037})
+			T := hlib.Pick(r, []int64{1, 1, 1, 2, 2, 2, 0, 0, -1, 9223372037, -9223372037})
 			q := req{K: "unlock", P: h.anyPw(85), T: T, Ticket: r.Chance(1, 10)}
 			out := h.op(q)
 			lateness()
@@ -888,11 +888,13 @@ func genTimed(o *hlib.Out, in caseIn, r0 *hlib.Rng) {
 				switch {
 				case T == 1 || T == 2:
 					deadline = h.clock + T*int64(time.Second)
+				case T == -9223372037:
+					deadline = -1 // int64 wrap-around to about 292 years
 				default:
 					deadline = h.clock // fires at once
 				}
 			}
-			observeNow := T == 1 || T == 2 || T == 0
+			observeNow := T == 1 || T == 2 || T == 0 || T == -9223372037
 			if observeNow {
 				observe()
 			}
